@@ -1046,6 +1046,10 @@ class Engine(MatrixTheory, NumpyTheory, Evaluator):
             # result
             if c.result is None:
                 res = VNone()
+            elif c.result_from and 'fields_of' in c.result_from:
+                # a record built from keyword arguments (Bunch(**kw)): the result's fields ARE the given values (same references)
+                kwv = env[c.result_from['fields_of']]
+                res = st.heap.alloc_obj(c.result_from['cls'], dict(kwv.fields))
             elif c.result_from:
                 src = env[c.result_from['copy_of']]
                 res = st.heap.alloc_obj(src.cls, dict(st.heap.objs[src.ref]))
